@@ -74,7 +74,7 @@ func cmdCheck(args []string) int {
 	if s := os.Getenv("VERIF_SEED"); s != "" {
 		seed, _ = strconv.Atoi(s)
 	}
-	timeout := 10 * time.Second
+	timeout := 15 * time.Second
 	if tier == "thorough" {
 		timeout = 60 * time.Second
 	}
@@ -158,7 +158,7 @@ func cmdCheck(args []string) int {
 	retried := 0
 	var rwg sync.WaitGroup
 	for _, r := range results {
-		if r.O.Cover || r.OK || r.R.Status == "sat" || r.Script == "" || retried >= 12 || g.knownOpen[stripOrdinal(r.O.Name)] {
+		if r.O.Cover || r.OK || r.R.Status == "sat" || r.Script == "" || retried >= 16 || g.knownOpen[stripOrdinal(r.O.Name)] {
 			continue
 		}
 		retried++
@@ -167,7 +167,7 @@ func cmdCheck(args []string) int {
 			defer rwg.Done()
 			retrySem <- struct{}{} // few at a time: the second attempt should not compete with itself
 			defer func() { <-retrySem }()
-			r2 := Solve(r.Script, 9*timeout, false)
+			r2 := Solve(r.Script, 6*timeout, false)
 			if r2.Status == "unsat" || r2.Status == "sat" {
 				r2.Time += r.R.Time
 				r.R = r2
